@@ -1555,6 +1555,10 @@ def run(ctx):
     viols = []
     seen_keys = set()
 
+    if not ctx.get("replay"):
+        import aeadtie          # runs (coqc vm_compute, a subprocess) while the histories below are driven
+        aead_pool = concurrent.futures.ThreadPoolExecutor(1)
+        aead_future = aead_pool.submit(aeadtie.run, ctx, "mini")
     if ctx.get("replay"):
         rp = json.load(open(ctx["replay"]))
         hs = [(rp["world"], rp["events"], "replay")]
@@ -1678,6 +1682,14 @@ def run(ctx):
             viols.append(violation("extraction-vs-vm_compute",
                                    "%d of %d sampled requests: extracted driver and vm_compute disagree" % (xbad, xn),
                                    False, first=xfirst, broken="extraction / ocaml driver glue (ocaml/drv.ml, ocaml/drv_c18.ml)"))
+
+    if not ctx.get("replay"):
+        # the symbolic AEAD terms are justified by the shared bit-exact cipher model (Model/ChaChaPoly.v, partial-tag open
+        # = bcast_aead_* in Props/C18.v); tie that model to aiohomekit.crypto.chacha20poly1305 here too (vm_compute, own oracle)
+        aead_info, aead_viols = aead_future.result()
+        aead_pool.shutdown()
+        cov.extra["aead_bit_exact"] = aead_info
+        viols.extend(aead_viols)
 
     all_out = {"notapple", "othertype", "nopairing", "nokey", "nodesc", "nodecrypt", "stale", "mismatch", "accepted",
                "undelivered-struct", "undelivered-unicode", "undelivered-nochar"}
